@@ -27,7 +27,10 @@ JudgeTs2(c, a) ==
   LET us == DsAddSmall(TsToPyUs(c.ms), c.sub) IN
   /\ Clause("ts2_lexical", IsDigits(a.xml))
   /\ Clause("ts2_lt_1ms", DsLess(Tup(a.err), <<1,0,0,0,0,0,0>>))
-  /\ Clause("ts2_xml_near", (c.ty # "float" /\ IsDigits(a.xml)) => TsXmlAcceptable(us, ToDs(a.xml)))
+  \* exact python value (Decimal, int): the written ms value itself is at most 1 ms away (implied by ts2_lt_1ms up to
+  \* the rounding of the float that to_py returns, hence "<=")
+  /\ Clause("ts2_xml_near", (c.ty # "float" /\ IsDigits(a.xml))
+                               => DsLeq(AbsDiff(TsToPyUs(ToDs(a.xml)), us), <<1,0,0,0>>))
 
 JudgeDpy(c, a) ==
   LET d == DecOf(c) IN
@@ -72,6 +75,9 @@ JudgeLex(c, a) ==
   /\ Clause("lex_reject", e = "raise" => a.st = "raise")
   /\ Clause("lex_accept", e = "value" => a.st = "value")
   /\ Clause("lex_value", (e \in {"value", "either"} /\ a.st = "value") => ValueMatches(c.ty, LexOf(c), a.v))
+  \* XML -> Python -> XML of an accepted literal (timestamps: see ts1)
+  /\ Clause("lex_xml_py_xml", (e \in {"value", "either"} /\ a.st = "value" /\ c.ty # "timestamp")
+                                 => (a.xst = "ok" /\ InType(c.ty, Tup(a.xml)) /\ SameLexValue(c.ty, Tup(a.xml), LexOf(c))))
 
 Completes(c, a) == c.k = "lex" \/ a.st = "ok"
 
